@@ -1,6 +1,7 @@
 package main
 
 import (
+	"strconv"
 	"bytes"
 	"os"
 	"os/exec"
@@ -38,12 +39,14 @@ var dnsSrv struct {
 	once  sync.Once
 	mu    sync.RWMutex
 	recs  map[string][]net.IP
+	qcnt  map[string]int
 	addr  string
 	fatal error
 }
 
 func startDNS() {
 	dnsSrv.recs = map[string][]net.IP{}
+	dnsSrv.qcnt = map[string]int{}
 	pc, err := net.ListenPacket("udp", "127.0.0.1:0")
 	if err != nil {
 		dnsSrv.fatal = err
@@ -56,9 +59,10 @@ func startDNS() {
 		m.Authoritative = true
 		for _, q := range r.Question {
 			name := strings.ToLower(strings.TrimSuffix(q.Name, "."))
-			dnsSrv.mu.RLock()
+			dnsSrv.mu.Lock()
 			ips := dnsSrv.recs[name]
-			dnsSrv.mu.RUnlock()
+			dnsSrv.qcnt[name]++
+			dnsSrv.mu.Unlock()
 			for _, ip := range ips {
 				if v4 := ip.To4(); v4 != nil && q.Qtype == dns.TypeA {
 					m.Answer = append(m.Answer, &dns.A{Hdr: dns.RR_Header{Name: q.Name, Rrtype: dns.TypeA, Class: dns.ClassINET, Ttl: 60}, A: v4})
@@ -103,6 +107,9 @@ func runC18(idx int, rng *rand.Rand, tier string) []Case {
 	}
 	if idx%40 == 7 {
 		return c18CLI(idx, rng)
+	}
+	if idx%40 == 11 {
+		return c18Resolvers(rng)
 	}
 	if idx%2 == 1 {
 		return c18ConnectCases(idx, rng, tier)
@@ -197,6 +204,13 @@ func runC18(idx int, rng *rand.Rand, tier string) []Case {
 		}
 	}
 	w.Z(errs)
+	// a TTL of 0 caches forever: the name is looked up when first needed (A and AAAA, possibly by
+	// several of the first concurrent dials), not again for later connections
+	dnsSrv.mu.Lock()
+	queries := dnsSrv.qcnt[name]
+	dnsSrv.mu.Unlock()
+	w.I(queries)
+	w.I(conc)
 	c.Tag = fmt.Sprintf("dns.%d;nt", compose)
 	c.Dist = fmt.Sprintf("dns/addrs%d/mode%d/compose%d/conc%d/dials%d", n, mode, compose, conc, sizeClass(dials))
 	c.Sample = map[string]interface{}{"resolved": fmt.Sprint(ips), "dials": dials, "concurrency": conc, "options": []string{"DNSCaching", "DNSCaching,ConnectTo", "ConnectTo,DNSCaching"}[compose], "first_dials": [][]string{rec.calls[0], rec.calls[1]}}
@@ -339,5 +353,34 @@ func c18CLI(idx int, rng *rand.Rand) []Case {
 	c.Tag = "cli.connectto;nt"
 	c.Dist = fmt.Sprintf("cli/keepalive=%v/http2=%v/replacements%d", keepalive, h2, nsrv)
 	c.Sample = map[string]interface{}{"args": args, "results": len(rs), "ok": okc, "hits_per_replacement": hits}
+	return []Case{c}
+}
+
+// -resolvers: the DNS dials rotate over the given resolver addresses
+func c18Resolvers(rng *rand.Rand) []Case {
+	k := 1 + rng.Intn(8)
+	addrs := make([]string, k)
+	for i := range addrs {
+		addrs[i] = fmt.Sprintf("10.0.0.%d:53", i+1)
+	}
+	n := 20 + rng.Intn(400)
+	seq := driver("resolverseq", append(append([]string(nil), addrs...), strconv.Itoa(n))...).List
+	var c Case
+	w := &c.W
+	w.Z(4)
+	w.I(k)
+	w.I(len(seq))
+	for _, a := range seq {
+		j := -1
+		for i := range addrs {
+			if addrs[i] == a {
+				j = i
+			}
+		}
+		w.I(j)
+	}
+	c.Tag = "resolvers;nt"
+	c.Dist = fmt.Sprintf("resolvers/k%d", k)
+	c.Sample = map[string]interface{}{"resolvers": k, "dials": n}
 	return []Case{c}
 }
